@@ -217,3 +217,35 @@ func jsEvalNode(evals []string, tag string) ([]jsEvalRes, error) {
 	}
 	return out.Evals, nil
 }
+
+// c04EscapeTie ties the model of soy.$$escapeHtml (MiniJS.js_escape_html) to soyutils.js in node.
+func c04EscapeTie(e *env) {
+	var strs []string
+	for c := 0; c < 128; c++ {
+		strs = append(strs, string(rune(c)), "a"+string(rune(c))+"b")
+	}
+	strs = append(strs, "", "1<2 & it's \"q\"", "&amp;", "&&&", "<<>>", "é \U0001F600<", strings.Repeat("<&>\"'", 500))
+	var reqs []string
+	unit := jsNodeUnit{ID: 1, Mode: "es5", Files: []jsNodeFile{{Name: "esc", Code: "var tie = {}; tie.esc = function(d) { return soy.$$escapeHtml(d.s); };", Templates: []string{"tie.esc"}}}}
+	for _, s := range strs {
+		reqs = append(reqs, "js_escape_html "+hx.H(s))
+		unit.Calls = append(unit.Calls, jsNodeCall{F: "tie.esc", D: map[string]interface{}{"s": s}})
+	}
+	model := e.m.Batch(reqs)
+	res, err := jsRunNode([]jsNodeUnit{unit}, "esc", "C04")
+	if err != nil || len(res) != 1 || len(res[0].Calls) != len(strs) {
+		e.res.Fail(hx.Violation{Kind: "mismatch", What: "node could not be run for the escapeHtml tie", Case: "node", Observed: fmt.Sprint(err)}, "")
+		return
+	}
+	for i, s := range strs {
+		e.res.Count("esc:"+s, true, "minijs:escapeHtml")
+		want := ""
+		if len(model[i]) == 1 {
+			want = hx.UnH(model[i][0])
+		}
+		got, _ := hex.DecodeString(res[0].Calls[i].Hex)
+		if res[0].Calls[i].Err != "" || string(got) != want {
+			e.res.Fail(hx.Violation{Kind: "mismatch", What: "soy.$$escapeHtml in node differs from the model js_escape_html", Case: hx.Q(s), Expected: hx.Q(want), Observed: hx.Q(string(got)) + res[0].Calls[i].Err}, "")
+		}
+	}
+}
